@@ -26,11 +26,11 @@ fn c13_offsets_blk() {
 }
 
 /// C13 K<= (BOUND: STEPS = 12 scripted accesses = up to 3 iterations; queue of 16 entries built by the real
-/// constructor): the capacity stored by the real `VirtIOBlk::new` equals `low | high << 32` of ONE
+/// constructor; unwind 40 = the 33-entry bitflags table of from_bits_truncate): the capacity stored by the real `VirtIOBlk::new` equals `low | high << 32` of ONE
 /// configuration the device exposed, for every placement of configuration changes between the register
 /// reads, given that the device bumps the generation on every change.
 #[kani::proof]
-#[kani::unwind(18)]
+#[kani::unwind(40)]
 fn c13_blk_capacity_untorn() {
     let t = ScriptT::any(DeviceType::Block);
     t.assume_honours_generation();
